@@ -269,6 +269,9 @@ class TimeCorr(Unit):
         elif rank == 4:
             for l in ("n", "i"):
                 names += [f"lemma:first-origin:{l}:base", f"lemma:first-origin:{l}:step"]
+        else:
+            names.append("lemma:first-origin:particle-sum")
+        names.append("lemma:lag-0-terms-are-the-k=0-instances")
         return names
 
     def clause_names(self, case):
@@ -370,9 +373,31 @@ class TimeCorr(Unit):
                 for o in obs:
                     yield o
                 use(top)
+        else:
+            if len(num) == 1:
+                # no accumulation loop: the particle sum of the code is the particle sum of the statement (extensionality)
+                f0 = num[0] == spec.P(k, ZERO)
+                yield "lemma:first-origin:particle-sum", f0, {"solver_opts": {"unfold": False}}
+                facts.append(f0)
+                facts.append(z3.substitute(f0, (k, ZERO)))
+        # the k-free Sigma terms of the result (they come from results[0] / counts[0]) are the k = 0 instances of the terms at lag k
+        bridges = []
+        for a in top_sigma_apps(z3.And(tc_k == 0, tc_0 == 0)):
+            if mentions(a, consts=[k]):
+                continue
+            fam = num if mentions(a, names=arrnames) else cnt
+            if len(fam) == 1:
+                e0 = z3.substitute(fam[0], (k, ZERO))
+                if not a.eq(e0):
+                    bridges.append(a == e0)
+        yield "lemma:lag-0-terms-are-the-k=0-instances", (z3.And(*bridges) if bridges else True), {"solver_opts": {"unfold": False}}
+        facts.extend(bridges)
         # ---- main clauses
         Ck, C0 = spec.C(k, spacing), spec.C(ZERO, spacing)
-        opts = {"assume": facts}
+        # with the lemma instances the main clauses are arithmetic over the Sigma terms as atoms: no unfolding and no
+        # extensionality instances (keeps the queries free of the particle-level polynomial summands: false variants are
+        # then refuted in milliseconds instead of timing out)
+        opts = {"assume": facts, "solver_opts": {"unfold": False, "ext": False}}
         yield "time_corr[k]=C(k)/C(0)", z3.Implies(inr, tc_k == Ck / C0), opts
         yield "time_corr[0]=1", tc_0 == 1, opts
         # divisors the code introduces: the per-lag origin counts (linear) and the un-normalised lag-zero value x
